@@ -7,4 +7,5 @@ const (
 	VerifRewriteBumpalong                      // UpdateBumpalong insertion
 	VerifRewriteAtomicAlternation              // reordering/trimming of atomic alternations
 	VerifRewriteAlternationPrefix              // extractCommonPrefixText / extractCommonPrefixOneNotoneSet
+	VerifRewriteNonBoundaryAtomic              // only the "loop followed by \B" clauses of the auto-atomic analysis (diagnosis of a known finding)
 )
